@@ -44,6 +44,7 @@ Definition ev_row (pt : ptable) (e : event) : list Z :=
   | EvEnd n => [3; lenb n] ++ zb n
   | EvText raw => [4; lenb raw] ++ zb raw ++ pw_row (parse_of pt raw)
   | EvOther => [5]
+  | EvComment => [8]
   | EvEof => [6]
   | EvErr => [7]
   end.
